@@ -299,7 +299,7 @@ func (v *FnVC) applyContract(fr *frame, st *State, con *Contract, callee *ssa.Fu
 		}
 		v.extraFormats = nil
 	}
-	for _, c := range con.Ensures {
+	for _, c := range append(append([]*Clause{}, con.Names...), con.Ensures...) {
 		env := &specEnv{v: v, fr: sub, st: st, old: pre, result: res, resType: callee.Signature.Results()}
 		// a clause that mentions the callee's locals cannot be stated at a call site: it is simply not assumed
 		if t, ok := tryEvalBool(env, c.Expr); ok {
@@ -401,6 +401,12 @@ func (v *FnVC) heapDeps(callee *ssa.Function) []famSort {
 		}
 	} else {
 		for f, s := range mine.Fams {
+			// writes that only touch objects allocated by the function under verification cannot change what a
+			// pure callee reads from pre-existing objects (objects handed to the callee are assumed complete
+			// before the call and unmodified between two related calls)
+			if !mine.NonFresh[f] {
+				continue
+			}
 			if reads.Top {
 				out = append(out, famSort{f, s})
 			} else if _, ok := reads.Fams[f]; ok {
